@@ -251,6 +251,8 @@ func decryptSymmetricAEAD(aead cipher.AEAD, ciphertext []byte, nonce []byte, tag
 	}
 
 	// Add the tag at the end of the ciphertext
+	// Cap the capacity so that append allocates and never writes into the spare capacity of the caller's slice
+	ciphertext = ciphertext[:len(ciphertext):len(ciphertext)]
 	ciphertext = append(ciphertext, tag...)
 	return aead.Open(nil, nonce, ciphertext, associatedData)
 }
@@ -311,6 +313,8 @@ func decryptSymmetricChaCha20Poly1305(ciphertext []byte, algorithm string, key [
 	}
 
 	// Add the tag at the end of the ciphertext
+	// Cap the capacity so that append allocates and never writes into the spare capacity of the caller's slice
+	ciphertext = ciphertext[:len(ciphertext):len(ciphertext)]
 	ciphertext = append(ciphertext, tag...)
 	return aead.Open(nil, nonce, ciphertext, associatedData)
 }
